@@ -166,6 +166,22 @@ def run(ctx):
           'pad+eos (accuracy_no_eos)': sorted([dshake.PAD, dshake.EOS]), 'oov': [dshake.OOV], 'vocabulary size': dshake.VOCAB_SIZE}
   for k in want:
     same(f'shakespeare: {k} (dataset vs model)', want[k], got[k])
+  # the registered tasks pair a dataset with a model: with the loaders stubbed (no network), the task's model must assume the
+  # ids and sizes its dataset produces
+  from fedjax.training import tasks as tasks_mod  # pylint: disable=g-import-not-at-top
+  tiny = fedjax.InMemoryFederatedData({b'c': {'x': np.zeros((1, 2), np.int32), 'y': np.zeros((1, 2), np.int32)}})
+  # (the StackOverflow task builds its tokenizer from a downloaded vocabulary: not reachable offline)
+  saved = (tasks_mod.datasets.shakespeare.load_data, tasks_mod.datasets.stackoverflow.load_data)
+  try:
+    tasks_mod.datasets.shakespeare.load_data = lambda **kw: (tiny, tiny)
+    tasks_mod.datasets.stackoverflow.load_data = lambda **kw: (tiny, tiny, tiny)
+    got_t = ids_of(tasks_mod.get_task('SHAKESPEARE_CHARACTER')[2], None)
+    for k in want:
+      same(f'shakespeare: {k} (dataset vs model)', want[k], got_t[k])
+  except Exception as ex_:  # pylint: disable=broad-except
+    raise Machinery(f'registered tasks not exercised: {type(ex_).__name__}: {str(ex_)[:200]}')
+  finally:
+    tasks_mod.datasets.shakespeare.load_data, tasks_mod.datasets.stackoverflow.load_data = saved
   # StackOverflow with a small explicit vocabulary
   try:
     vocab = ['the', 'a', 'of', 'jax', 'fed']
@@ -196,6 +212,14 @@ def run(ctx):
       ref = tf.image.per_image_standardization(tf.image.resize_with_crop_or_pad(tf.constant(img), crop, crop)).numpy()
       same(f'cifar eval preprocessing of a {kind} image, crop {crop} (fedjax vs TensorFlow)', ours, ref)
       ctx.case(key=('cifar-tf', kind, crop), nontrivial=kind != 'random' or crop % 2 == 1)
+    # non-square crops, through the image function and through the batch wrapper (positional and keyword arguments)
+    for ch_, cw_ in ((28, 20), (20, 28), (31, 3), (1, 32), (24, 24)):
+      ref = tf.image.per_image_standardization(tf.image.resize_with_crop_or_pad(tf.constant(img), ch_, cw_)).numpy()
+      same(f'cifar eval preprocessing of a {kind} image, crop {ch_}x{cw_} (fedjax vs TensorFlow)', dcifar.preprocess_image_tff(img[None], ch_, cw_, distort=False)[0], ref)
+      ex_b = {'x': img[None], 'y': np.array([3], np.int32)}
+      same(f'cifar eval preprocessing of a {kind} image, crop {ch_}x{cw_} (fedjax vs TensorFlow)', np.asarray(dcifar.preprocess_batch_tff(dict(ex_b), ch_, cw_)['x'][0]), ref)
+      same(f'cifar eval preprocessing of a {kind} image, crop {ch_}x{cw_} (fedjax vs TensorFlow)',
+           np.asarray(dcifar.preprocess_batch_tff(dict(ex_b), crop_width=cw_, crop_height=ch_)['x'][0]), ref)
   img = ((np.arange(32 * 32 * 3).reshape(32, 32, 3) * 7) % 251).astype(np.uint8)
   crops = [(c_, c_) for c_ in ([1, 5, 16, 24, 31, 32] if big else [5, 24, 32])] + [(28, 20), (20, 28), (31, 3)] + ([(8, 30), (32, 16), (1, 32)] if big else [])
   for crop_h, crop_w in crops:
